@@ -1,6 +1,7 @@
 package main
 
 import (
+	"runtime"
 	"crypto/sha256"
 	"encoding/json"
 	"flag"
@@ -233,7 +234,7 @@ func cmdCheck(args []string) int {
 		all = append(all, r.Obs...)
 	}
 	// lemmas
-	timeout := 20 // quick tier: every obligation of the pinned tree is discharged in under 3 s on an idle machine; the margin is for loaded machines
+	timeout := 30 // quick tier: every obligation of the pinned tree but a handful is discharged in under 3 s on an idle machine (the slowest, two invariants of the chunker and the phase collector, in 4-6 s); the margin is for loaded machines
 	requireAll := false
 	if *tier == "thorough" {
 		timeout = 60
@@ -242,7 +243,7 @@ func cmdCheck(args []string) int {
 	if id == "C19" && *tier == "quick" {
 		timeout = 3 // safety obligations that are provable at all are discharged in well under a second
 	}
-	dischargeAll(all, filepath.Join(outDir, "smt"), timeout, requireAll, 10)
+	dischargeAll(all, filepath.Join(outDir, "smt"), timeout, requireAll, solverPar())
 	// optional loop invariants ("invariant?") that do not apply to the code or are not inductive are dropped and the
 	// functions concerned are verified again without them (at most four rounds)
 	for round := 0; round < 4; round++ {
@@ -272,7 +273,7 @@ func cmdCheck(args []string) int {
 			reports[i] = verifyFunction(P, S, w.fn, w.ct, id, w.sweep || (id == "C19"))
 			again = append(again, reports[i].Obs...)
 		}
-		dischargeAll(again, filepath.Join(outDir, "smt"), timeout, requireAll, 10)
+		dischargeAll(again, filepath.Join(outDir, "smt"), timeout, requireAll, solverPar())
 		all = all[:0]
 		all = append(all, missing...)
 		for _, r := range reports {
@@ -863,4 +864,14 @@ func renamedTarget(P *Program, key, sig string) *ssa.Function {
 		return found
 	}
 	return nil
+}
+
+// solverPar: obligations discharged at a time. Three solvers race on each, so a third of the cores keeps every solver
+// process on a core of its own (wall-clock timeouts then mean what they say, also on a loaded machine).
+func solverPar() int {
+	n := runtime.NumCPU() / 3
+	if n < 2 {
+		n = 2
+	}
+	return n
 }
